@@ -4,6 +4,56 @@ use adf_bdd::datatypes::{Term, Var};
 use adf_bdd::obdd::Bdd;
 use std::panic::{catch_unwind, AssertUnwindSafe};
 
+/// long operation sequences over many variables on a bounded pool of diagrams: stores with
+/// hundreds of thousands of nodes and memo entries. The specification side follows the functions
+/// on a SAMPLE of assignments (a sub-cube: `free` variables range, the others are fixed by `base`).
+pub fn gen_big(r: &mut Rng, cases: usize, size: usize, out: &mut Out) {
+    let maxv = if size == 0 { 16 } else { size };
+    for case in 0..cases {
+        let nv = r.range(maxv.saturating_sub(3).max(8), maxv);
+        let base = r.below(1 << nv);
+        let mut vs: Vec<usize> = (0..nv).collect();
+        for i in (1..vs.len()).rev() {
+            vs.swap(i, r.usize(i + 1));
+        }
+        let free: Vec<usize> = vs.iter().take(6).copied().collect();
+        out.line(&format!("case bddbig-{case}"));
+        out.line(&format!(
+            "newbig {nv} {base} {}",
+            free.iter().map(|v| v.to_string()).collect::<Vec<_>>().join(",")
+        ));
+        let mut len = 2usize;
+        for v in 0..nv {
+            out.line(&format!("var {v}"));
+            len += 1;
+        }
+        let nops = r.range(300, 520);
+        let pool = 40usize;
+        for _ in 0..nops {
+            let pick = |r: &mut Rng| len - 1 - r.usize(pool.min(len - 2));
+            let a = pick(r);
+            let b = pick(r);
+            match r.below(16) {
+                0 => out.line(&format!("var {}", r.usize(nv))),
+                1 => out.line(&format!("not #{a}")),
+                2..=4 => out.line(&format!("and #{a} #{b}")),
+                5..=7 => out.line(&format!("or #{a} #{b}")),
+                8 => out.line(&format!("imp #{a} #{b}")),
+                9 | 10 => out.line(&format!("iff #{a} #{b}")),
+                11..=14 => out.line(&format!("xor #{a} #{b}")),
+                _ => {
+                    // restrictions that stay inside the sampled sub-cube
+                    let v = r.usize(nv);
+                    let c = if free.contains(&v) { r.below(2) } else { (base >> v) & 1 };
+                    out.line(&format!("restrict #{a} {v} {c}"));
+                }
+            }
+            len += 1;
+        }
+        out.line("finish");
+    }
+}
+
 pub fn gen(r: &mut Rng, cases: usize, size: usize, out: &mut Out) {
     let maxv = if size == 0 { 6 } else { size };
     for case in 0..cases {
@@ -94,11 +144,40 @@ pub fn truth_table(bdd: &Bdd, t: Term, nv: usize) -> u128 {
     tt
 }
 
+/// value of a handle on the sampled sub-cube: bit `s` = value under the assignment in which
+/// free variable `free[j]` has bit `j` of `s` and every other variable its bit of `base`
+pub fn sample_table(bdd: &Bdd, t: Term, base: u64, free: &[usize]) -> u128 {
+    let mut tt = 0u128;
+    for s in 0..(1u128 << free.len()) {
+        let mut cur = t;
+        let mut steps = 0;
+        while !cur.is_truth_value() {
+            let n = bdd.nodes[cur.value()];
+            let v = n.var().value();
+            let bit = match free.iter().position(|f| *f == v) {
+                Some(j) => (s >> j) & 1 == 1,
+                None => v < 64 && (base >> v) & 1 == 1,
+            };
+            cur = if bit { n.hi() } else { n.lo() };
+            steps += 1;
+            if steps > bdd.nodes.len() {
+                break;
+            }
+        }
+        if cur.is_true() {
+            tt |= 1 << s;
+        }
+    }
+    tt
+}
+
 #[derive(Default)]
 pub struct Exec {
     bdd: Option<Bdd>,
     hist: Vec<Term>,
     nv: usize,
+    /// sampled mode (`newbig`): base assignment and free variables
+    big: Option<(u64, Vec<usize>)>,
 }
 
 fn idx(s: &str) -> Option<usize> {
@@ -116,6 +195,17 @@ impl Exec {
                 self.bdd = Some(Bdd::new());
                 self.hist = vec![Term::BOT, Term::TOP];
                 self.nv = ws[1].parse().unwrap_or(0);
+                self.big = None;
+                out.line(l);
+                true
+            }
+            "newbig" if ws.len() == 4 => {
+                self.bdd = Some(Bdd::new());
+                self.hist = vec![Term::BOT, Term::TOP];
+                self.nv = ws[1].parse().unwrap_or(0);
+                let base: u64 = ws[2].parse().unwrap_or(0);
+                let free: Vec<usize> = ws[3].split(',').filter_map(|x| x.parse().ok()).collect();
+                self.big = Some((base, free));
                 out.line(l);
                 true
             }
@@ -128,7 +218,11 @@ impl Exec {
                         self.hist.push(t);
                         out.line(&format!("= {}", t.value()));
                         let bdd = self.bdd.as_ref().unwrap();
-                        match catch_unwind(AssertUnwindSafe(|| truth_table(bdd, t, self.nv))) {
+                        let big = self.big.clone();
+                        match catch_unwind(AssertUnwindSafe(|| match &big {
+                            Some((base, free)) => sample_table(bdd, t, *base, free),
+                            None => truth_table(bdd, t, self.nv),
+                        })) {
                             Ok(tt) => out.line(&format!("~ {tt}")),
                             Err(_) => out.line("~ panic"),
                         }
@@ -153,7 +247,8 @@ impl Exec {
                 match r {
                     Ok(Some((eq, sp))) => {
                         out.line(&format!("= {eq}"));
-                        out.line(&format!("~ {sp}"));
+                        // sampled mode: counts are compared with the algorithmic model only
+                        out.line(&format!("~ {}", if self.big.is_some() { "skipped" } else { &sp }));
                     }
                     Ok(None) => {
                         out.line("= bad-request");
@@ -237,6 +332,28 @@ impl Exec {
                 out.line(&format!("= {table}"));
                 out.line(&format!("wfcheck {table}"));
                 out.line("~ true");
+                if let Some((base, free)) = &self.big {
+                    out.line("alltt");
+                    out.line(&format!(
+                        "~ {}",
+                        self.hist.iter().map(|t| sample_table(bdd, *t, *base, free).to_string()).collect::<Vec<_>>().join(",")
+                    ));
+                    #[cfg(adf_obdd_verif)]
+                    let memo = {
+                        let (_, ite, res, _, _) = bdd.verif_dump_tables();
+                        ite.len() + res.len()
+                    };
+                    #[cfg(not(adf_obdd_verif))]
+                    let memo = 0;
+                    out.line(&format!(
+                        "# case bddbig nodes={} ops={} nv={} memo={}",
+                        bdd.nodes.len() - 2,
+                        self.hist.len() - 2,
+                        self.nv,
+                        memo
+                    ));
+                    return true;
+                }
                 // partition of the history by implementation handle
                 out.line("classes");
                 out.line(&format!("~ {}", classes(&self.hist.iter().map(|t| t.value() as u128).collect::<Vec<_>>())));
@@ -306,10 +423,18 @@ impl Exec {
         // normalised: number of falsifying / satisfying assignments over nv variables
         let sp = if d <= self.nv {
             let f = 1u128 << (self.nv - d);
+            // the memoised counters must tell the same numbers (models: outside the documented exception)
+            let satmemo = match mm {
+                Some(m) => format!("{} {}", m.cmodels as u128 * f, m.models as u128 * f),
+                None => "- -".to_string(),
+            };
             format!(
-                "sat {} {} paths {} {} depth {} deps [{}] more {}",
+                "sat {} {} satmemo {} pathsmemo {} {} paths {} {} depth {} deps [{}] more {}",
                 mn.cmodels as u128 * f,
                 mn.models as u128 * f,
+                satmemo,
+                pm.cmodels,
+                pm.models,
                 pn.cmodels,
                 pn.models,
                 d,
